@@ -39,10 +39,10 @@ OUTS = ["out.py", "out.h", "out.js", "out.m", "out_combined.yaml", "out.txt"]
 
 def gen_cases(tier, seed):
     rng = random.Random(f"c16-{seed}")
-    n = 40 if tier == "quick" else 1500
+    n = 40 if tier == "quick" else 800
     cases = [{"mode": "twice", "seed": rng.getrandbits(40), "reserve2": i % 3 == 0} for i in range(n)]
     # several compilations inside ONE interpreter (API): A, B, A again - outputs of A must not depend on what was compiled before
-    for i in range(6 if tier == "quick" else 150):
+    for i in range(6 if tier == "quick" else 100):
         cases.append({"mode": "same_process", "seed": rng.getrandbits(40), "seed_b": rng.getrandbits(40)})
     cases.append({"mode": "core", "seed": 0})
     return cases
